@@ -52,6 +52,15 @@ def tx_payload(parent, label):
             return None
         v = sum(u[r][0] for r in o1)
         return [world.mk_tx([(oref(r), K[1]) for r in o1], [(v - 3, K[0])])], K[4], dt + 6
+    if name == 'n':       # empty block whose reward transaction has NO outputs (the miner forfeits the reward: valid)
+        return [], K[5], dt + 9, {'cb_data': b'n', 'cb_outs': []}
+    if name == 'i':       # one transaction whose inputs alternate between owners: K1, K0, K1 (everything to the foreign key)
+        o0 = owned(u, K[0])
+        o1 = [r for r in owned(u, K[1]) if u[r][0] > 0]
+        if not o0 or len(o1) < 2:
+            return None
+        v = u[o1[0]][0] + u[o0[0]][0] + u[o1[1]][0]
+        return [world.mk_tx([(oref(o1[0]), K[1]), (oref(o0[0]), K[0]), (oref(o1[1]), K[1])], [(v - 9, K[2])])], K[5], dt + 8
     if name == 'f':       # funding: empty block mined by K0
         return [], K[0], dt
     if name == 's':       # split
